@@ -46,6 +46,11 @@ PM1_RULES = (
     "FejerSecond", "TrefethenCC", "TrefethenGC2", "TrefethenStripCC", "TrefethenStripGC2", "SingleTanh",
 )
 HALF_RULES = ("UniformInteger", "GaussLaguerre", "ExpSinh", "LogExpSinh", "ExpExp", "SingleExp", "SingleArcSinhExp")
+SUB_PM1 = ("sub:pm1-inner", "sub:pm1-right", "sub:pm1-left", "chain:linear-linear")
+SUB_HALF = ("sub:half-finite", "sub:half-inner")
+# nodes extremely close to the end points (|r'| beyond 1e16 while still finite)
+EXTREME = (("TanhSinh", 61), ("TanhSinh", 81), ("GaussChebyshev", 100), ("GaussChebyshevType2", 200), ("FejerFirst", 150),
+           ("GaussLegendre", 100))
 PM1_TF = ("BeckeRTransform", "LinearFiniteRTransform", "MultiExpRTransform", "KnowlesRTransform",
           "HandyRTransform", "HandyModRTransform")
 HALF_TF = ("IdentityRTransform", "LinearInfiniteRTransform", "ExpRTransform", "PowerRTransform",
@@ -56,6 +61,18 @@ INV_TF = ("BeckeRTransform", "KnowlesRTransform", "HandyRTransform", "MultiExpRT
 
 def make_rule(name, n):
     import grid.onedgrid as og
+    from grid.basegrid import OneDGrid
+
+    # hand-made grids whose domain is a proper sub-interval of the transformation's domain
+    if name.startswith("sub:"):
+        lo, hi = {"sub:pm1-inner": (-0.5, 0.5), "sub:pm1-right": (0.0, 0.5), "sub:pm1-left": (-1.0, 0.25),
+                  "sub:half-finite": (0.0, 10.0), "sub:half-inner": (1.0, 5.0)}[name]
+        base = og.GaussLegendre(n)
+        return OneDGrid(0.5 * (hi - lo) * (base.points + 1) + lo, 0.5 * (hi - lo) * base.weights, (lo, hi))
+    if name == "chain:linear-linear":
+        from grid.rtransform import LinearFiniteRTransform
+
+        return LinearFiniteRTransform(-0.5, 0.5).transform_1d_grid(og.GaussLegendre(n))
 
     odd_only = ("Simpson", "TanhSinh", "ExpSinh", "LogExpSinh", "ExpExp", "SingleTanh", "SingleExp",
                 "SingleArcSinhExp")
@@ -181,6 +198,13 @@ def _case(arg):
             if expect_reject:
                 res.nontrivial()
                 return res.as_dict()
+            if not inv and p.get("trim_inf"):
+                nodes = _oracle_nodes(name, {k: v for k, v in p.items() if v is not None}, inv, x)
+                if any(np.isfinite(r0) and abs(r0) >= 1e16 for r0, _ in nodes):
+                    # an interior node maps beyond the number that represents infinity under
+                    # trimming: outside what the 1e16 convention can express (counted)
+                    res.inadm()
+                    return res.as_dict()
             if name == "HyperbolicRTransform" and (np.max(x) >= 1.0 / p["b"] or p["b"] * (len(x) - 1) >= 1.0):
                 # nodes beyond the pole 1/b (or the documented b*(N-1) < 1 rule): not admissible
                 res.inadm()
@@ -227,14 +251,20 @@ def _case(arg):
             continue
         regular += 1
         decreasing = (r1 < 0) if decreasing is None else decreasing
-        if abs(np_pts[i] - r0) > RTOL * (abs(r0) + 1e-3):
+        # conditioning: maps on [-1, 1] evaluate 1 -+ x (or 1 - q^k) in floating point; a node within
+        # delta of an end point carries a relative rounding error ~ eps/delta in those quantities
+        cond = 0.0
+        if tuple(rule.domain) == (-1, 1) or name in PM1_TF and not inv:
+            cond = 16 * np.finfo(float).eps / max(1.0 - abs(x[i]), 1e-300) if abs(x[i]) < 1 else 0.0
+        rt = RTOL + cond
+        if abs(np_pts[i] - r0) > rt * (abs(r0) + 1e-3):
             res.violation(f"{tag}:points-not-mapped-nodes",
                           f"{tag}: node x={x[i]:.6g} of {rule_name}({n}) became {np_pts[i]:.12g}, the map gives {r0:.12g}", case)
         ew = w[i] * abs(r1)
         atol = 1e-13 * abs(w[i]) * jac_scale + 1e-300  # r'(x_i) may vanish (e.g. Handy m=2 at x=-1)
-        if abs(np_w[i] - ew) <= RTOL * abs(ew) + atol:
+        if abs(np_w[i] - ew) <= 3 * rt * abs(ew) + atol:
             abs_match += 1
-        if abs(np_w[i] - w[i] * r1) <= RTOL * abs(ew) + atol:
+        if abs(np_w[i] - w[i] * r1) <= 3 * rt * abs(ew) + atol:
             signed_match += 1
     if regular:
         res.nontrivial()
@@ -325,6 +355,16 @@ def run(ctx):
             jobs.append((rn, n, name, p, inv, ctx.seed, False))
     for rn, n in itertools.product(HALF_RULES, NS):
         for name, p, inv in half:
+            jobs.append((rn, n, name, p, inv, ctx.seed, False))
+    # sub-interval domains and extreme nodes (added after seeded changes C04-A / C04-B were missed)
+    for rn, n in itertools.product(SUB_PM1, (3, 6)):
+        for name, p, inv in pm1[:: 1 if ctx.thorough else 3]:
+            jobs.append((rn, n, name, p, inv, ctx.seed, False))
+    for rn, n in itertools.product(SUB_HALF, (3, 6)):
+        for name, p, inv in half[:: 1 if ctx.thorough else 3]:
+            jobs.append((rn, n, name, p, inv, ctx.seed, False))
+    for rn, n in EXTREME:
+        for name, p, inv in pm1[:: 1 if ctx.thorough else 4]:
             jobs.append((rn, n, name, p, inv, ctx.seed, False))
     # domain mismatches must be rejected (one representative per class pair)
     for rn in (PM1_RULES[0], PM1_RULES[5]):
